@@ -17,6 +17,7 @@ import numpy as np
 from vmon import core, gen, contracts, cli, fsmon
 from vmon import refmodel as rm
 
+ANCHORS = ['evo/tools/user.py', 'evo/tools/file_interface.py', 'evo/tools/pandas_bridge.py', 'evo/tools/plot.py', 'evo/main_ape.py', 'evo/main_rpe.py', 'evo/main_traj.py', 'evo/main_res.py', 'evo/main_config.py', 'evo/common_ape_rpe.py']
 LEVEL = "exploration"
 SHARDS = {"quick": 8, "thorough": 16}
 RULE = ("matrix of output scenarios (writer functions with str/Path targets; evo_ape, evo_rpe, "
